@@ -35,6 +35,7 @@ type C01Case struct {
 	Lists    bool     `json:"lists,omitempty"`  // lib layer: every fourth in-flight slot is a tools/list or prompts/list instead of a call
 	Unenc    []bool   `json:"unenc,omitempty"`  // per call (cycled): the handler returns a result that cannot be encoded (the call ends with an error, promptly)
 	IDBase   int64    `json:"idbase,omitempty"` // lib layer: the client has already issued this many requests (its id counter starts here)
+	Pads     []int    `json:"pads,omitempty"`   // per call (cycled): bytes of padding in the request's arguments (requests larger than a read buffer)
 }
 
 // counter positions of a long-lived client: around 10^6 (where %v starts to print a float64 with an exponent), 2^31, 2^32 and below 2^53
@@ -61,6 +62,16 @@ func genC01(t *rapid.T) C01Case {
 	n = rapid.IntRange(1, 5).Draw(t, "nlat")
 	for i := 0; i < n; i++ {
 		c.Latency = append(c.Latency, rapid.IntRange(0, 6).Draw(t, "lat"))
+	}
+	if rapid.IntRange(0, 2).Draw(t, "pads?") == 0 {
+		n = rapid.IntRange(1, 4).Draw(t, "npads")
+		for i := 0; i < n; i++ {
+			pad := rapid.SampledFrom([]int{0, 3000, 4096, 9000, 70000, 300000}).Draw(t, "pad")
+			if c.InFlight > 32 && pad > 9000 {
+				pad = 9000
+			}
+			c.Pads = append(c.Pads, pad)
+		}
 	}
 	n = rapid.IntRange(1, 8).Draw(t, "nids")
 	for i := 0; i < n; i++ {
@@ -100,7 +111,7 @@ func c01Answer(nonce string, size int) string {
 
 // c01Server registers the echo tool whose answer is computed from the request's own arguments.
 func c01Register(w *World, r Registrar) {
-	r.RegisterTool(mcp.NewTool("echo", mcp.WithString("nonce"), mcp.WithNumber("size"), mcp.WithNumber("lat")), func(ctx context.Context, req *mcp.CallToolRequest) (*mcp.CallToolResult, error) {
+	r.RegisterTool(mcp.NewTool("echo", mcp.WithString("nonce"), mcp.WithNumber("size"), mcp.WithNumber("lat"), mcp.WithString("pad")), func(ctx context.Context, req *mcp.CallToolRequest) (*mcp.CallToolResult, error) {
 		n := w.InFly.Add(1)
 		for {
 			m := w.MaxFly.Load()
@@ -258,6 +269,9 @@ func execC01Lib(c C01Case) *Failure {
 					req := &mcp.CallToolRequest{}
 					req.Params.Name = "echo"
 					req.Params.Arguments = map[string]interface{}{"nonce": nonce, "size": size, "lat": lat, "fail": fail, "unenc": unenc}
+					if len(c.Pads) > 0 && c.Pads[k%len(c.Pads)] > 0 {
+						req.Params.Arguments["pad"] = strings.Repeat("p ", c.Pads[k%len(c.Pads)]/2)
+					}
 					noargs := !fail && !unenc && k%5 == 2
 					if noargs {
 						// a call that carries no arguments at all is answered from no arguments (not from what an earlier call left behind)
@@ -417,8 +431,12 @@ func execC01Raw(c C01Case) *Failure {
 				size := c.Sizes[seq%len(c.Sizes)]
 				lat := c.Latency[seq%len(c.Latency)]
 				fail := len(c.Fails) > 0 && c.Fails[seq%len(c.Fails)]
+				rawArgs := map[string]interface{}{"nonce": nonce, "size": size, "lat": lat, "fail": fail}
+				if len(c.Pads) > 0 && c.Pads[seq%len(c.Pads)] > 0 {
+					rawArgs["pad"] = strings.Repeat("p ", c.Pads[seq%len(c.Pads)]/2)
+				}
 				raw, _ := json.Marshal(map[string]interface{}{"jsonrpc": "2.0", "id": json.RawMessage(id), "method": "tools/call",
-					"params": map[string]interface{}{"name": "echo", "arguments": map[string]interface{}{"nonce": nonce, "size": size, "lat": lat, "fail": fail}}})
+					"params": map[string]interface{}{"name": "echo", "arguments": rawArgs}})
 				plan[ci] = append(plan[ci], sent{id: id, nonce: nonce, size: size, raw: raw, fail: fail})
 			}
 		}
